@@ -26,9 +26,8 @@
 -/
 import MbVerif.Proofs.ValidateInit
 
-namespace Mb
-namespace C12
-open Validate Fp
+namespace Mb.C12
+open Mb Mb.Validate Mb.Fp
 
 /-- acceptance by validation implies well-formedness, for any sound triple of range tests -/
 theorem C12_sound_of_checks {c : Checks} (hc : ChecksSound c) (m : Machine) :
@@ -154,5 +153,4 @@ theorem C12_init_no_fault (ms : List Machine) (fp fb : F64) (t0 : Int) (rng : σ
 
 end init
 
-end C12
-end Mb
+end Mb.C12
